@@ -125,7 +125,12 @@ func (m *CPU) Run(app risc.Application) (int, error) {
 
 		// Write back
 		for _, wu := range m.writeUnits {
-			_ = wu.Cycle(wuReq{m.ctx, -1})
+			if flush {
+				// In case of a flush, we shouldn't write pending-write instructions.
+				_ = wu.Cycle(wuReq{m.ctx, sequenceID})
+			} else {
+				_ = wu.Cycle(wuReq{m.ctx, -1})
+			}
 		}
 		log.Info(m.ctx, "\tRegisters: %v", m.ctx.Registers)
 
